@@ -411,6 +411,13 @@ def run_dmrg(case):
     Eexp = M.H_MPO.expectation_value(psi)
     out['E_mpo'] = float(np.real(Eexp))
     if case['bc'] == 'finite':
+        # eigensolver statistics of the local updates: Krylov dimension of the last updates, energy change / discarded weight of the last update
+        us = getattr(eng, 'update_stats', None) or {}
+        out['N_lanczos_last'] = [int(x) for x in (us.get('N_lanczos') or [])[-4:]]
+        et = (us.get('E_trunc') or [None])[-1]
+        out['E_trunc_last'] = None if et is None else float(np.real(et))
+        er = (us.get('err') or [None])[-1]
+        out['err_last'] = None if er is None else float(er.eps)
         th = psi.get_theta(0, L).to_ndarray()
         canon = {'tfi': ['up', 'down'], 'xxz': ['up', 'down'], 'longrange': ['up', 'down'], 'fermion': ['empty', 'full']}[case['model']['name']]
         for k, site in enumerate(psi.sites):
